@@ -6,6 +6,7 @@ import (
 	"bytes"
 	"fmt"
 	"net"
+	"reflect"
 	"sort"
 	"time"
 
@@ -250,6 +251,7 @@ type srvInv struct {
 	atEnd     []byte
 	done      bool
 	waitedFor bool
+	wroteOwn  bool
 }
 
 type srvState struct {
@@ -319,6 +321,9 @@ func (st *srvState) start(tier string) {
 		st.conn.OnIdle = st.checkDrained
 		st.net = NewNet(s)
 		st.conn.OnRead = func(d dgram, nread int) {
+			if len(d.b) <= 4096 {
+				nread = len(d.b) // judged as on the wire: the servers read up to 4096 bytes
+			}
 			b := append([]byte(nil), d.b[:nread]...)
 			r := &srvRx{bytes: b, from: d.from}
 			r.canon, r.valid = p.Canon(b)
@@ -499,6 +504,13 @@ func (st *srvState) handler(waitNextNum int) func(peer net.Addr, m interface{}) 
 			g.Open()
 			delete(st.nextGates, idx-1)
 		}
+		// A handler may do what it likes with its own message, e.g. fill in addresses in
+		// place; nobody else's message may change because of that.
+		if t.Coin(1, 5) {
+			inv.wroteOwn = true
+			scribbleOwn(reflect.ValueOf(m), 0)
+			s.Probe("handler-writes-into-its-own-message")
+		}
 		// outlive the next reads
 		if st.nextGates != nil && waitNextNum > 0 && t.Coin(waitNextNum, 100) {
 			g := NewGate(s, fmt.Sprintf("next%d", idx))
@@ -512,6 +524,42 @@ func (st *srvState) handler(waitNextNum int) func(peer net.Addr, m interface{}) 
 		inv.atEnd = p.MsgBytes(m)
 		inv.done = true
 		inv.endSeq = s.Ev("handler.end", idx, int64(len(inv.atEnd)), "", nil)
+	}
+}
+
+// scribbleOwn overwrites, in place, every byte slice reachable from m through
+// exported fields (addresses, hardware address, option values).
+func scribbleOwn(v reflect.Value, depth int) {
+	if depth > 6 {
+		return
+	}
+	switch v.Kind() {
+	case reflect.Ptr, reflect.Interface:
+		if !v.IsNil() {
+			scribbleOwn(v.Elem(), depth+1)
+		}
+	case reflect.Struct:
+		for i := 0; i < v.NumField(); i++ {
+			if v.Type().Field(i).PkgPath == "" {
+				scribbleOwn(v.Field(i), depth+1)
+			}
+		}
+	case reflect.Slice:
+		if v.Type().Elem().Kind() == reflect.Uint8 {
+			for i := 0; i < v.Len(); i++ {
+				if v.Index(i).CanSet() {
+					v.Index(i).SetUint(0x11)
+				}
+			}
+			return
+		}
+		for i := 0; i < v.Len(); i++ {
+			scribbleOwn(v.Index(i), depth+1)
+		}
+	case reflect.Map:
+		for _, k := range v.MapKeys() {
+			scribbleOwn(v.MapIndex(k), depth+1)
+		}
 	}
 }
 
@@ -543,7 +591,7 @@ func (st *srvState) oracle(v *vio) {
 		if ptrs[inv.ptr] == 2 {
 			v.add("V-shared", "handler invocations share one message object (invocation %d)", i)
 		}
-		if inv.done && !bytes.Equal(inv.atStart, inv.atEnd) {
+		if inv.done && !inv.wroteOwn && !bytes.Equal(inv.atStart, inv.atEnd) {
 			v.add("V-mutated", "handler invocation %d: the message changed while the handler ran (later datagrams were read meanwhile): %d bytes at start, %d at end", i, len(inv.atStart), len(inv.atEnd))
 		}
 	}
